@@ -7,7 +7,7 @@ from . import runsuite as R
 
 
 def settings(tier):
-    return {"max_programs": 45 if tier == "quick" else None}
+    return {"max_programs": 45 if tier == "quick" else 300}
 
 
 def model_prints(d, i, m, sd="0"):
